@@ -1,4 +1,5 @@
 """C14 - xdis.marsh and the built-in marshal are interchangeable on plain values."""
+import os
 import random
 
 import common as C
@@ -91,7 +92,7 @@ def run(r):
                                  "expected": o["orig"][:200], "host": host})
                     continue
                 reprs = "[" + "; ".join(f"({b}, {C.blist(s)})" for b, s in o["reprs"]) + "]"
-                lits.append(f"(dumps (fun b => match zassoc b {reprs} with Some s => s | None => [] end) false {lit(o['seen'])}, {C.blist(o['bytes'])})")
+                lits.append(f"(dumps (fun b => match zassoc b {reprs} with Some s => s | None => [] end) false false {lit(o['seen'])}, {C.blist(o['bytes'])})")
                 keep.append((v, o))
             if host == C.HOST_DEFAULT:
                 bad, errs = C.coq_cases(r.wd, "mdumps", HEADER, "list Z * list Z", "fun c => zlist_eqb (fst c) (snd c)", lits, chunk=100)
@@ -101,6 +102,22 @@ def run(r):
                     r.violation({"component": "xdis.marsh.dumps (bytes) vs Model.Marsh.dumps", "value": keep[b][0], "impl_bytes": keep[b][1]["bytes"][:300]})
             # loads of the host's version-0/1 streams
             hd = C.run_impl_op("host_dumps", [{"value": v} for v in vals], modules=MODS, host=host, shards=4)
+            # CPython's writer for format versions 0 / 1 as modelled (dumps g17 false true) against the host's real marshal.dumps, byte for byte
+            wl, wo = [], []
+            def has_set(x):
+                return isinstance(x, list) and (x[:1] in (["set"], ["frozenset"]) or any(has_set(y) for y in x))
+            for v, o in zip(vals, hd):
+                if has_set(v):
+                    continue        # marshal writes set members in an order of its own (sorted by their bytes from 3.11): read back by value below
+                tbl = "[" + "; ".join(f"({b}, {C.blist(t)})" for b, t in o["g17"]) + "]"
+                for key in ("v0", "v1"):
+                    wl.append(f"(dumps (fun b => match zassoc b {tbl} with Some s => s | None => [] end) false true {lit(o['seen'])}, {C.blist(o[key])})")
+                    wo.append((v, key))
+            wbad, werrs = C.coq_cases(r.wd, "hostw" + host.replace("/", "_")[-12:], HEADER, "list Z * list Z", "fun c => zlist_eqb (fst c) (snd c)", wl, chunk=100)
+            if C.spec_problem(r, werrs, wbad):
+                print("MACHINERY-ERROR: the model of CPython's marshal writer (format 0/1) disagrees with the host's marshal.dumps:", werrs[:1], [wo[b] for b in wbad[:3]])
+                raise SystemExit(2)
+            r.cov.setdefault("spec_validation", {})["host_writer_streams_" + os.path.basename(os.path.dirname(os.path.dirname(host)))] = len(wl)
             streams = []
             for v, o in zip(vals, hd):
                 for key in ("v0", "v1"):
